@@ -425,6 +425,17 @@ def equality_clause(n, seed, acc):
         ("layout:orthogonal.inv", lambda: M.OrthogonalMatrix(Qo.copy()).inv,
          lambda: M.OrthogonalMatrix(Qo.T.copy())),
     ]
+    # parameters equal in value but not bytewise: -0.0 (produced by negating a matrix with
+    # structural zeros) against +0.0
+    Dz = mzoo.P_diag(n, seed, positive=False)
+    layout_pairs += [
+        ("negzero:triangular", lambda: -M.TriangularMatrix(Lt.copy(), lower=True),
+         lambda: M.TriangularMatrix(-Lt, lower=True)),
+        ("negzero:dense_square", lambda: -M.DenseSquareMatrix(np.tril(Lt)),
+         lambda: M.DenseSquareMatrix(-np.tril(Lt) + 0.0)),
+        ("negzero:diagonal", lambda: M.DiagonalMatrix(np.where(np.arange(n) == 0, -0.0, Dz)),
+         lambda: M.DiagonalMatrix(np.where(np.arange(n) == 0, 0.0, Dz))),
+    ]
     for label, fa, fb in layout_pairs:
         acc.count("equality_pairs")
         try:
@@ -434,6 +445,17 @@ def equality_clause(n, seed, acc):
         cfgp = {"pair": label, "seed": seed, "n": n}
         if type(a) is not type(b) or not np.array_equal(np.array(a.array), np.array(b.array)):
             continue  # not the same value after all (harness construction, not judged)
+        # equality does not depend on whether the (lazily cached) hashes were computed first
+        eq_before = bool(a == b)
+        ha, hb = hash(a), hash(b)
+        eq_after = bool(a == b) and bool(b == a)
+        if eq_before != eq_after:
+            acc.violation(driver="pairs", config=cfgp,
+                          fields={"class": type(a).__name__,
+                                  "what": "equality_depends_on_hash_having_been_computed"},
+                          kind="equality", observed=[eq_before, eq_after],
+                          expected="same answer before and after hashing")
+            continue
         if not (a == b) or hash(a) != hash(b):
             acc.violation(driver="pairs", config=cfgp,
                           fields={"class": type(a).__name__,
